@@ -725,6 +725,8 @@ dec_decompress (munge_cred_t c)
      */
     n = buf_len;
     if (zip_decompress_block (m->zip, buf, &n, c->inner, c->inner_len) < 0) {
+        memset (buf, 0, buf_len);
+        free (buf);
         return (m_msg_set_err (m, EMUNGE_CRED_INVALID, NULL));
     }
     assert (n == buf_len);
